@@ -124,6 +124,52 @@ static void run_product(Ctx& ctx, const PF& pf, int fam, void* pc, int sd) {
   }
 }
 
+// ---- complete small scopes: every combination of boundary half-words for ell = 1, 2 (and 3 on a coarser alphabet) ----
+// The carry logic between the partial sums of a product depends on the low / high halves of a few terms only: all of it is reached
+// by very short vectors whose words are built from {0, 1, 2, 2^31, 2^32-2, 2^32-1} halves.
+static void run_small_scope(Ctx& ctx, const PF& pf, void* pc, int ell) {
+  std::string id = sfmt("scope|%s|ell=%d|all combinations of boundary half-words", pf.name, ell);
+  if (!ctx.want(id)) return;
+  ctx.begin_case(id);
+  const int kind = pf.kind;
+  const std::vector<uint32_t> H = ell <= 2 ? std::vector<uint32_t>{0u, 1u, 2u, 0x80000000u, 0xFFFFFFFEu, 0xFFFFFFFFu} : std::vector<uint32_t>{0u, 1u, 0xFFFFFFFFu};
+  const uint64_t nh = H.size();
+  // one term = (x word, y word); a-layout words are single 32-bit values, the others (hi, lo) / (y1, y0) pairs
+  const uint64_t per_word = kind == 0 ? nh : nh * nh, per_term = per_word * per_word;
+  uint64_t total = 1; for (int t = 0; t < ell; ++t) total *= per_term;
+  const uint64_t xw = kind <= 2 ? 4 : 8, yw = kind <= 1 ? 4 : kind == 2 ? 4 : kind == 3 ? 8 : 16;
+  const int nres = kind <= 2 ? 1 : kind == 3 ? 2 : 4;
+  GBuf X(ell * xw * 8, 8), Y(ell * yw * 8, 16), R(nres * 32, 24);
+  bool bad = false;
+  for (uint64_t code = 0; code < total && !bad; ++code) {
+    uint64_t c = code;
+    uint64_t xv[3], yv[3];
+    for (int t = 0; t < ell; ++t) {
+      uint64_t cw = c % per_term; c /= per_term;
+      uint64_t cx = cw % per_word, cy = cw / per_word;
+      xv[t] = kind == 0 ? H[cx] : (((uint64_t)H[cx / nh]) << 32) | H[cx % nh];
+      yv[t] = kind == 0 ? H[cy] : (((uint64_t)H[cy / nh]) << 32) | H[cy % nh];   // for the c layout: y1 in the high, y0 in the low half
+    }
+    for (int t = 0; t < ell; ++t) {
+      for (uint64_t j = 0; j < xw; ++j) X.as<uint64_t>()[t * xw + j] = xv[t];
+      if (kind <= 1) for (uint64_t j = 0; j < 4; ++j) Y.as<uint64_t>()[t * 4 + j] = yv[t];
+      else for (uint64_t j = 0; j < yw; ++j) Y.as<uint64_t>()[t * yw + j] = yv[t];  // a uint64 holds the pair (y0 = low word, y1 = high word) of one prime
+    }
+    pf.f(pc, (uint64_t)ell, R.p, X.p, Y.p);
+    for (int k = 0; k < 4 && !bad; ++k) {
+      uint64_t want = 0;
+      for (int t = 0; t < ell; ++t) want = (want + (kind <= 1 ? term_aa(xv[t], yv[t], k) : term_bc(xv[t], (uint32_t)yv[t], (uint32_t)(yv[t] >> 32), k))) % QS[k];
+      for (int r = 0; r < nres; ++r) {
+        uint64_t got = R.as<uint64_t>()[4 * r + k] % QS[k];
+        if (got != want) { ctx.violation(id, sfmt("terms x=%llx,%llx,%llx y=%llx,%llx,%llx: result %d lane %d is %llu mod q, the exact sum is %llu", (unsigned long long)xv[0], (unsigned long long)(ell > 1 ? xv[1] : 0), (unsigned long long)(ell > 2 ? xv[2] : 0), (unsigned long long)yv[0], (unsigned long long)(ell > 1 ? yv[1] : 0), (unsigned long long)(ell > 2 ? yv[2] : 0), r, k, (unsigned long long)got, (unsigned long long)want)); bad = true; break; }
+      }
+    }
+  }
+  if (!X.guards_ok() || !Y.guards_ok() || !R.guards_ok()) ctx.violation(id, "write outside a declared extent");
+  ctx.metric_add(2, total);
+  ctx.end_case(true);
+}
+
 // ---- conversions ----
 static std::vector<int64_t> int64_alphabet(Rng& r) {
   std::vector<int64_t> v = {0, 1, -1, INT64_C(1) << 31, -(INT64_C(1) << 31), INT64_C(1) << 32, -(INT64_C(1) << 32), INT64_C(1) << 62, -(INT64_C(1) << 62), INT64_MIN, INT64_MAX, INT64_MIN + 1};
@@ -344,7 +390,7 @@ static void run_residue_sweep(Ctx& ctx, uint64_t part) {
 int main(int argc, char** argv) {
   Args args = parse_args("C10", argc, argv, 300, 1800);
   Ctx ctx(args);
-  ctx.name_metric(0, "ell_values_checked"); ctx.name_metric(1, "residues_swept");
+  ctx.name_metric(0, "ell_values_checked"); ctx.name_metric(1, "residues_swept"); ctx.name_metric(2, "small_scope_operand_tuples");
   static q120_mat1col_product_baa_precomp* paa = q120_new_vec_mat1col_product_baa_precomp();
   static q120_mat1col_product_bbb_precomp* pbb = q120_new_vec_mat1col_product_bbb_precomp();
   static q120_mat1col_product_bbc_precomp* pbc = q120_new_vec_mat1col_product_bbc_precomp();
@@ -366,6 +412,7 @@ int main(int argc, char** argv) {
     run_product(c, pf, fam, pc, sd);
     c.args.seed = save;
   }, "products");
+  ctx.parallel((uint64_t)nf * 3, [&](uint64_t i) { const PF& pf = tab[i % nf]; run_small_scope(ctx, pf, pf.kind == 0 ? (void*)paa : pf.kind == 1 ? (void*)pbb : (void*)pbc, (int)(i / nf) + 1); }, "complete small scopes");
   ctx.parallel(1, [&](uint64_t) { run_conversions(ctx); }, "conversions");
   ctx.parallel(64, [&](uint64_t part) { run_residue_sweep(ctx, part); }, "c-layout conversions on every residue");
   ctx.assumptions = {"default 30-bit prime set", "c-layout operands that are not canonical pairs are judged against the defined value x_lo*y0 + x_hi*y1",
